@@ -449,6 +449,85 @@ def main():
     lr.append("def certReds : Array (List Nat) := #[" + ", ".join(
         "[" + ", ".join(str(p) for p in reduces[t]) + "]" for t in range(nstates)) + "]")
     lr.append("")
+    # ---------------- termination certificate (checked in Lean, not trusted) ----------------
+    # a potential  phi(stack) = sum of w(state) over the stack + r(top state)  that every reduction
+    # decreases by at least 1: for every certified transition q --A--> g and every production
+    # A -> X1..Xk, with q, s1, .., sk = t the certified path from q over X1..Xk:
+    #     w(s1) + .. + w(sk) + r(t)  >=  1 + w(g) + r(g).
+    # w is uniform; r is the longest-path solution of the resulting difference constraints.
+    nxt = [dict(succ[q]) for q in range(nstates)]
+    nnt = max(nt for _ids, nt, _acc in prod_info) + 1
+    prods_of = [[p for p in range(len(prod_info)) if prod_info[p][1] == n] for n in range(nnt)]
+    def potential(wc):
+        edges = set()
+        for q in range(nstates):
+            for x, g in succ[q]:
+                if x < ncols:
+                    continue
+                for p in prods_of[x - ncols]:
+                    ids, nt, accept = prod_info[p]
+                    if accept:
+                        continue
+                    t, c = q, 0
+                    for y in ids:
+                        t = nxt[t].get(y)
+                        if t is None:
+                            break
+                        c += wc
+                    if t is not None:
+                        edges.add((g, t, 1 + wc - c))
+        r = [0] * nstates
+        for _it in range(nstates + 2):
+            changed = False
+            for g, t, d in edges:
+                if r[g] + d > r[t]:
+                    r[t] = r[g] + d
+                    changed = True
+            if not changed:
+                return [wc] * nstates, r
+        return None
+    pot = None
+    for wc in (1, 2, 3, 4):
+        pot = potential(wc)
+        if pot:
+            break
+    if pot is None:
+        # no certificate: emit the zero potential; the Lean check then fails and says so
+        pot = ([0] * nstates, [0] * nstates)
+
+    def tree(leaves, lo, hi, var, indent):
+        # balanced decision tree over the index, built from kernel-accelerated comparisons
+        if hi - lo == 1:
+            return leaves[lo]
+        mid = (lo + hi) // 2
+        pad = " " * indent
+        return (f"cond (Nat.blt {var} {mid})\n{pad}  (" + tree(leaves, lo, mid, var, indent + 2) + f")\n{pad}  ("
+                + tree(leaves, mid, hi, var, indent + 2) + ")")
+    def table_fn(name, var, ty, leaves, default, doc):
+        lr.append(f"/-- {doc} -/")
+        lr.append(f"def {name} ({var} : Nat) : {ty} :=")
+        lr.append(f"  cond (Nat.blt {var} {len(leaves)})\n    (" + tree(leaves, 0, len(leaves), var, 4) + f")\n    ({default})")
+        lr.append("")
+    lr.append("/-! termination certificate (computed by the translator, CHECKED by `Props/LrTerm.lean`), as decision")
+    lr.append("    trees the kernel evaluates quickly: state weights `w` and top-of-stack ranks `r` such that every")
+    lr.append("    reduction decreases  Σ w(stack) + r(top);  the transition function; the productions -/")
+    lr.append("")
+    table_fn("certWf", "s", "Nat", [str(x) for x in pot[0]], "0", "state ↦ weight")
+    table_fn("certRf", "s", "Nat", [str(x) for x in pot[1]], "0", "state ↦ rank")
+    table_fn("certNext", "q", "List (Nat × Nat)",
+             ["[" + ", ".join(f"({x}, {t})" for x, t in sorted(succ[q])) + "]" for q in range(nstates)], "[]",
+             "state ↦ its outgoing transitions (symbol id, target)")
+    table_fn("certInfo", "p", "Option (List Nat × Nat × Bool)",
+             ["some ([" + ", ".join(str(x) for x in ids) + f"], {nt}, {'true' if accept else 'false'})"
+              for ids, nt, accept in prod_info], "none",
+             "production ↦ (symbol ids of the right-hand side, non-terminal index, accept)")
+    table_fn("certProdsOf", "n", "List Nat",
+             ["[" + ", ".join(str(p) for p in ps) + "]" for ps in prods_of], "[]",
+             "non-terminal index ↦ its productions")
+    lr.append(f"def certWMax : Nat := {max(pot[0])}")
+    lr.append("")
+    lr.append(f"def certRMax : Nat := {max(pot[1])}")
+    lr.append("")
     lr.append("end Aidl.Gen")
     lr.append("")
 
